@@ -127,8 +127,12 @@ def campaign(ctx, cfg, layout, shard=0, nshards=1):
         if f[0] == 'ENC': encs.append((bytes.fromhex(f[1]), f[2]))
         else: usks.append(f[1])
     def ask(e, u):
-        p.stdin.write(f'TRY {e.hex()} {u}\n'); p.stdin.flush()
-        r = p.stdout.readline().strip().split(' ')
+        # a harness that died (abort on an allocation request, stack overflow) or stopped answering counts as a panic on this input
+        try:
+            p.stdin.write(f'TRY {e.hex()} {u}\n'); p.stdin.flush()
+            r = p.stdout.readline().strip().split(' ')
+        except (BrokenPipeError, OSError): r = ['']
+        if len(r) < 2: return 'PANIC(process died)', 'DIED'
         return r[0][5:], r[1][4:]
     # authorization matrix on the unmodified encapsulations (also: reference == implementation, secret == recorded)
     auth = {}; dis = []; n = 0
@@ -156,6 +160,7 @@ def campaign(ctx, cfg, layout, shard=0, nshards=1):
     hist = {}; viol = []; muts = []
     for ei, (e, s) in enumerate(encs):
         if ei % nshards != shard: continue
+        if viol and viol[-1][4].startswith('PANIC(process'): break      # the harness died on the last mutant: nothing more can be asked
         au = [ui for ui in range(len(usks)) if auth[(ei, ui)]][:2]; un = [ui for ui in range(len(usks)) if not auth[(ei, ui)]][:1]
         users = au + un
         muts = []
@@ -173,6 +178,18 @@ def campaign(ctx, cfg, layout, shard=0, nshards=1):
         others = [parsed[j] for j in range(len(parsed)) if j != ei][:3]
         muts += list(structural(parsed[ei], others))
         muts += [('truncated', e[:-1]), ('extended', e + b'\x00')]
+        # count fields (number of traps, number of shares) replaced by LONG encodings of boundary values
+        def leb(v):
+            o = bytearray()
+            while True:
+                b = v & 0x7f; v >>= 7
+                if v: o.append(b | 0x80)
+                else: o.append(b); return bytes(o)
+        cpos = 16 + 1 + PT * len(parsed[ei].c) + 1
+        for (fld, pos) in (('trap count', 16), ('share count', cpos)):
+            if pos < len(e) and e[pos] < 128:
+                for v in (2 ** 64 - 1, 2 ** 63, 2 ** 62, 2 ** 56, 2 ** 40, 2 ** 32, 2 ** 31 + 1, 300, e[pos] + 1):
+                    muts.append((f'{fld} set to {v}', e[:pos] + leb(v) + e[pos + 1:]))
         for what, m in muts:
             if m == e: continue
             for ui in users:
@@ -184,9 +201,11 @@ def campaign(ctx, cfg, layout, shard=0, nshards=1):
                 im, rf = ask(m, usks[ui]); n += 1
                 cls = im.split(':')[0]
                 hist[f'{what} -> {cls}'] = hist.get(f'{what} -> {cls}', 0) + 1
-                if im != rf and not alt and not (im == 'UNPARSABLE' or rf == 'UNPARSABLE'): dis.append((what, ei, ui, im, rf))
-                if cls == 'SOME' or cls == 'PANIC':
+                if im != rf and rf != 'DIED' and not alt and not (im == 'UNPARSABLE' or rf == 'UNPARSABLE'): dis.append((what, ei, ui, im, rf))
+                if cls == 'SOME' or cls.startswith('PANIC'):
                     viol.append((what, ei, ui, m, im))
+                    if rf == 'DIED': break
+            if viol and viol[-1][4].startswith('PANIC(process'): break
     p.stdin.close(); p.wait()
     if not alt: ctx.ob('correspondence', f'real decapsulation == model-driven reference decapsulator (hash layout from the Coq model, primitives from the same crates) on {n} (encapsulation, key) pairs',
            not dis, '' if not dis else f'{len(dis)} disagreements, first: {dis[0]}')
